@@ -705,3 +705,44 @@ def handle_broken_proof(ctx):
                       failing_input=False)
     elif ctx.proof_broken:
         ctx.notes.append("proof obligation broken: " + ctx.proof_broken)
+
+
+# ------------------------------------------------------------------ replay
+
+def generic_replay(ctx, mod, path):
+    """./check Cxx --replay replays/Cxx-....json : re-run the stored case on the current tree, re-evaluate the
+    oracle and the model, print what happens. Exit 1 if the violation reproduces."""
+    body = json.load(open(path if os.path.isabs(path) else os.path.join(ROOT, path)))
+    rep = body.get("replay", {})
+    sig = body.get("signature", "")
+    tag = sig.split(":", 1)[0]
+    specs = getattr(mod, "SPECS", {})
+    print("replaying %s (%s)" % (path, sig))
+    if "case" not in rep or rep["case"] is None or tag not in specs:
+        print("this replay names a proof obligation / correspondence rather than an input:")
+        print(json.dumps(rep, indent=1)[:3000])
+        ctx.check_proofs(getattr(mod, "PROP_FILES", []))
+        print("proof obligations now: %s/%s discharged%s" % (ctx.coverage.get("discharged"), ctx.coverage.get("obligations"),
+                                                            ("; broken: " + ctx.proof_broken) if ctx.proof_broken else ""))
+        sys.exit(1 if ctx.proof_broken else 0)
+    spec, module, exe_name = specs[tag]
+    ok, out, exe = build_runner(module=module, exe_name=exe_name)
+    if not ok:
+        print("harness does not build:\n" + out[-2000:])
+        sys.exit(1)
+    case = dict(rep["case"], id=0)
+    obs, err = run_runner(exe, spec.component, [case], timeout=300)
+    if err or not obs:
+        print("implementation run failed: %s" % err)
+        sys.exit(1)
+    print("implementation observations now: " + json.dumps(obs[0].get("obs"))[:4000])
+    if hasattr(spec, "post_run"):
+        spec.post_run([case], {0: obs[0]})
+    fails = spec.oracle(case, obs[0])
+    for s_, what in fails:
+        print("ORACLE FAILS: %s: %s" % (s_, what))
+    failing, cerr = eval_failing_multi(spec.imports, [spec.coq_case(case, obs[0])], spec.checkers, "replay_%s" % ctx.pid, preamble=spec.preamble)
+    print("model agreement: " + ", ".join("%s=%s" % (k, "DISAGREES" if v else "agrees") for k, v in failing.items()) + ((" error: " + cerr[:500]) if cerr else ""))
+    bad = bool(fails) or any(v for k, v in failing.items() if k not in getattr(spec, "informational", ()))
+    print("violation reproduces" if bad else "violation does not reproduce on the current tree")
+    sys.exit(1 if bad else 0)
